@@ -17,7 +17,8 @@ import (
 // round: not found, an older version / another object, fresh arbitrary bytes of the same length, or a
 // truncation. target restricts the tampered key class: 0 any, 1 checkpoint, 2 hash tiles, 3 data tile,
 // 4 staging bundle (lock ahead of storage), 5 issuer, 6 hash tiles with the lock ahead of storage,
-// 7 data tile and hash tile tampered consistently (certificate bytes / whole tile symbolic) with the lock ahead. The log may refuse to load or stop; if it signs
+// 7 data tile and hash tile tampered consistently (certificate bytes / whole tile symbolic) with the lock ahead,
+// 8 right-edge data tile with authentic entries swapped or duplicated. The log may refuse to load or stop; if it signs
 // a new checkpoint, that checkpoint extends exactly the committed tree by the acknowledged entries.
 func VerifC08Tamper(n0, budget, target, positions int) {
 	c08Positions = positions
@@ -111,6 +112,45 @@ func VerifC08Tamper(n0, budget, target, positions int) {
 			copy(out[off:off+2], verifNondetBytes("certbytes", 2))
 			return out, true
 		}
+		if target == 8 {
+			// the right-edge data tile with two of its authentic entries swapped, or one duplicated over another
+			if !found || remaining == 0 || tampered[key] || class != 3 {
+				return data, found
+			}
+			raw, ok := verifUngzip(data)
+			if !ok {
+				panic("stored data tile is not compressed")
+			}
+			var ents [][]byte
+			for len(raw) > 0 {
+				_, rest, err := sunlight.ReadTileLeaf(raw)
+				if err != nil {
+					panic("stored data tile does not parse")
+				}
+				ents = append(ents, raw[:len(raw)-len(rest)])
+				raw = rest
+			}
+			if len(ents) < 2 {
+				return data, found
+			}
+			remaining--
+			tampered[key] = true
+			i := verifConcretize(verifChoice("entry-i", len(ents)))
+			j := verifConcretize(verifChoice("entry-j", len(ents)))
+			verifAssume(i != j)
+			if verifNondetBool("duplicate") {
+				verifTrace("TAMPER duplicate an entry over another in " + key)
+				ents[j] = ents[i]
+			} else {
+				verifTrace("TAMPER swap two entries of " + key)
+				ents[i], ents[j] = ents[j], ents[i]
+			}
+			var out []byte
+			for _, e := range ents {
+				out = append(out, e...)
+			}
+			return verifGzip(out), true
+		}
 		if !found || remaining == 0 || tampered[key] || (want != 0 && class != want) || class == 0 {
 			return data, found
 		}
@@ -197,6 +237,17 @@ func VerifC08Tamper(n0, budget, target, positions int) {
 	}
 	all := append(append([][32]byte{}, truth...), refLeafHash(newLeaf))
 	verifAssert(refMTH(all) == [32]byte(nc.hash), "the checkpoint signed after tampering is not the committed tree plus the newly sequenced entry")
+	// the data tile the restarted instance published for the new tree holds, at every position, an entry
+	// whose Merkle leaf is the committed one (uncovered fields may differ, see above)
+	leaves2, ok := w.readLeaves(nc.n)
+	verifAssert(ok, "the data tiles published after tampering are unreadable")
+	if ok {
+		good := true
+		for i := (nc.n - 1) / sunlight.TileWidth * sunlight.TileWidth; i < nc.n; i++ {
+			good = verifAnd(good, refLeafHash(leaves2[i]) == all[i])
+		}
+		verifAssert(good, "the data tile published after tampering does not hold the entries of the tree it continues")
+	}
 }
 
 // c08Position picks an offset in [0, n): every 8th offset below 128, then 8 evenly spaced ones.
